@@ -156,7 +156,7 @@ func sqlCmd(args []string) {
 		}
 		return dsn
 	}
-	const wd = 10 * time.Second
+	const wd = 25 * time.Second
 	for i := 0; i < len(lines); i++ {
 		t := newToks(lines[i])
 		if !t.more() {
